@@ -46,6 +46,7 @@ type lintRecord struct {
 	partial bool
 	selKey  string
 	sel     map[string]bool
+	script  Script
 }
 
 type histState struct {
@@ -69,6 +70,7 @@ type histState struct {
 	prevKind string
 	emptyCfg lint.Configuration
 	tmpDir   string
+	curScriptBad map[string]bool
 }
 
 func (h *histState) violate(v Violation) {
@@ -107,7 +109,7 @@ func writeMarker(tag string) {
 
 func runHist(p *Plan, keepLog bool) *RunResult {
 	h := &histState{p: p, log: &EventLog{keep: keepLog}, ctr: counters{}, distinct: map[string]map[string]bool{}}
-	h.log.Add("seed=%d engine=hist prop=%s tier=%s", p.Seed, p.Prop, p.Tier)
+	h.log.Add("seed=%d engine=%s prop=%s tier=%s", p.Seed, p.Engine, p.Prop, p.Tier)
 	h.meta = readMetaTable()
 	h.libMajor = libraryMajor()
 	h.emptyCfg = lint.NewEmptyConfig()
@@ -238,6 +240,10 @@ func (h *histState) step(i int, op *Op) {
 		h.doRead(i, op)
 	case "defaultcfg":
 		h.doDefaultCfg(i, op)
+	case "probe":
+		h.doProbe(i, op)
+	case "direct":
+		h.doDirect(i, op)
 	default:
 		h.log.Add("op %d unknown kind %q ignored", i, op.K)
 	}
@@ -375,7 +381,9 @@ func (h *histState) checkShape(i int, rs *zlint.ResultSet, kind int, sel map[str
 				v("bad_metadata", n, fmt.Sprintf("result carries metadata %+v, registered is %+v", r.LintMetadata, m.Meta))
 			}
 		}
-		if r.Status < lint.NA || r.Status > lint.Fatal {
+		if h.curScriptBad[n] && (r.Status < lint.NA || r.Status > lint.Fatal) {
+			// a stub scripted to misbehave (C04 pass-through): not counted against C01
+		} else if r.Status < lint.NA || r.Status > lint.Fatal {
 			v("bad_status", n, fmt.Sprintf("status %d is not one of the seven defined ones", int(r.Status)))
 		} else {
 			seen[int(r.Status)] = true
@@ -392,6 +400,16 @@ func (h *histState) checkShape(i int, rs *zlint.ResultSet, kind int, sel map[str
 		}
 	}
 	h.ctr.inc(fmt.Sprintf("status_mix/%04b/%s", mask, kindNames[kind]))
+	szc := "many"
+	switch {
+	case len(got) == 0:
+		szc = "0"
+	case len(got) == 1:
+		szc = "1"
+	case len(got) < 10:
+		szc = "few"
+	}
+	h.mark("status_mix_cells", fmt.Sprintf("%s|%04b|%s", kindNames[kind], mask, szc))
 	if rs.Version != h.libMajor {
 		v("bad_version", "", fmt.Sprintf("version=%d, library major version is %d", rs.Version, h.libMajor))
 	}
